@@ -1,1 +1,1252 @@
-//! Generators (independent of `basic::lang::ast`).
+//! Program generator (own AST), renderer with spelling/layout options, and the reference
+//! interpreter that runs the AST statement by statement as the manual prescribes
+//! (DESIGN.md Appendix A). Programs are structured so that they terminate.
+
+use crate::rng::Rng;
+use std::collections::BTreeMap;
+
+pub const VARS: [&str; 8] = ["A", "B", "C", "D", "P", "Q", "X1", "ZZ"];
+pub const LOOPV: [&str; 6] = ["I", "J", "K", "L", "M", "N"];
+pub const WHILEV: [&str; 4] = ["W1", "W2", "W3", "W4"];
+pub const FNS: [&str; 3] = ["FNA", "FNB", "FNC"];
+pub const PARAMS: [&str; 3] = ["X", "Y", "A"];
+
+#[derive(Clone, Debug, PartialEq)]
+pub enum E {
+    N(i64),
+    V(String),
+    Bin(Box<E>, &'static str, Box<E>),
+    Neg(Box<E>),
+    Fn(usize, Vec<E>),
+}
+
+#[derive(Clone, Debug, PartialEq)]
+pub enum Item {
+    S(String),
+    E(E),
+}
+
+#[derive(Clone, Debug, PartialEq)]
+pub enum St {
+    Print(Vec<Item>, bool),
+    Let(String, E, bool),
+    Goto(usize),
+    Gosub(usize),
+    Return,
+    On(E, bool, Vec<usize>),
+    If(E, Vec<St>, Option<Vec<St>>),
+    For(String, E, E, Option<E>),
+    Next(Vec<String>),
+    While(E),
+    Wend,
+    End,
+    Stop,
+    Rem(String, bool),
+    Read(Vec<String>),
+    Data(Vec<i64>),
+    Restore(Option<usize>),
+    Def(usize, Vec<String>, E),
+    Tron,
+    Troff,
+}
+
+/// A line: label id (resolved to a line number by `number`) and its statements.
+#[derive(Clone, Debug, PartialEq)]
+pub struct Line {
+    pub label: usize,
+    pub sts: Vec<St>,
+}
+
+#[derive(Clone, Debug)]
+pub struct Prog {
+    pub lines: Vec<Line>,
+    /// label -> line number
+    pub nums: BTreeMap<usize, u16>,
+}
+
+#[derive(Clone, Copy)]
+pub struct Opts {
+    pub data: bool,
+    pub func: bool,
+    pub tron: bool,
+    pub stop: bool,
+    pub max_lines: usize,
+}
+
+impl Opts {
+    pub const CONTROL: Opts = Opts { data: false, func: false, tron: false, stop: true, max_lines: 40 };
+}
+
+struct G<'a> {
+    rng: &'a mut Rng,
+    o: Opts,
+    next_label: usize,
+    loopv: usize,
+    whilev: usize,
+    nsubs: usize,
+    sub_labels: Vec<usize>,
+    nfn: usize,
+    fn_arity: Vec<usize>,
+    budget: i64,
+}
+
+impl<'a> G<'a> {
+    fn label(&mut self) -> usize {
+        self.next_label += 1;
+        self.next_label
+    }
+
+    fn var(&mut self) -> String {
+        VARS[self.rng.usize(5)].to_string()
+    }
+
+    fn atom(&mut self, params: &[String]) -> E {
+        if !params.is_empty() && self.rng.chance(1, 2) {
+            return E::V(self.rng.pick(params).clone());
+        }
+        match self.rng.usize(5) {
+            0 | 1 => E::N(self.rng.range(0, 9)),
+            2 => E::N(self.rng.range(-3, 20)),
+            _ => E::V(self.var()),
+        }
+    }
+
+    fn expr(&mut self, depth: usize, params: &[String]) -> E {
+        if depth == 0 || self.rng.chance(2, 5) {
+            return self.atom(params);
+        }
+        match self.rng.usize(9) {
+            0 | 1 => E::Bin(Box::new(self.expr(depth - 1, params)), "+", Box::new(self.expr(depth - 1, params))),
+            2 => E::Bin(Box::new(self.expr(depth - 1, params)), "-", Box::new(self.expr(depth - 1, params))),
+            3 => E::Bin(Box::new(self.expr(depth - 1, params)), "*", Box::new(E::N(self.rng.range(0, 4)))),
+            4 | 5 => E::Bin(
+                Box::new(self.expr(depth - 1, params)),
+                "MOD",
+                Box::new(E::N(self.rng.range(2, 7))),
+            ),
+            6 => E::Neg(Box::new(self.atom(params))),
+            7 if self.o.func && self.nfn > 0 && depth >= 1 => {
+                let k = self.rng.usize(self.nfn);
+                let n = self.fn_arity[k];
+                let args = (0..n).map(|_| self.expr(depth - 1, params)).collect();
+                E::Fn(k, args)
+            }
+            _ => self.cond(params),
+        }
+    }
+
+    fn cond(&mut self, params: &[String]) -> E {
+        let ops = ["<", "=", "<>", ">", "<=", ">="];
+        let op = *self.rng.pick(&ops);
+        E::Bin(Box::new(self.atom(params)), op, Box::new(self.atom(params)))
+    }
+
+    fn print(&mut self) -> St {
+        let n = self.rng.range(1, 3);
+        let mut items = vec![];
+        for _ in 0..n {
+            if self.rng.chance(1, 2) {
+                let words = ["A", "HI", "x", "=", "<>", "GO", "Z9", "é", ".", "#"];
+                items.push(Item::S(self.rng.pick(&words).to_string()));
+            } else {
+                items.push(Item::E(self.expr(2, &[])));
+            }
+        }
+        St::Print(items, self.rng.chance(1, 3))
+    }
+
+    fn assign(&mut self) -> St {
+        let v = self.var();
+        let e = self.expr(2, &[]);
+        // keep values small: most assignments reduce modulo something
+        let e = if self.rng.chance(3, 4) {
+            E::Bin(Box::new(e), "MOD", Box::new(E::N(self.rng.range(3, 11))))
+        } else {
+            e
+        };
+        St::Let(v, e, self.rng.chance(1, 5))
+    }
+
+    fn simple(&mut self) -> St {
+        match self.rng.usize(6) {
+            0 | 1 | 2 => self.print(),
+            _ => self.assign(),
+        }
+    }
+
+    /// Statements for one line; `fwd` are labels that may be jumped to (all lie ahead).
+    fn line_sts(&mut self, fwd: &[usize], in_sub: bool, sub_from: usize) -> Vec<St> {
+        let mut v = vec![];
+        let n = self.rng.range(1, 3);
+        for _ in 0..n {
+            v.push(self.simple());
+        }
+        match self.rng.usize(12) {
+            0 | 1 => {
+                let then = self.arm(fwd, in_sub, sub_from);
+                let dangling = matches!(then.last(), Some(St::If(_, _, None)));
+                let els = if !dangling && self.rng.chance(1, 2) { Some(self.arm(fwd, in_sub, sub_from)) } else { None };
+                v.push(St::If(self.cond(&[]), then, els));
+            }
+            2 if !fwd.is_empty() => v.push(St::Goto(*self.rng.pick(fwd))),
+            3 if sub_from < self.nsubs => {
+                let k = sub_from + self.rng.usize(self.nsubs - sub_from);
+                v.push(St::Gosub(self.sub_labels[k]));
+                if self.rng.coin() {
+                    v.push(self.simple());
+                }
+            }
+            4 if !fwd.is_empty() => {
+                let n = self.rng.range(1, 3) as usize;
+                let t = (0..n).map(|_| *self.rng.pick(fwd)).collect();
+                v.push(St::On(self.sel(), false, t));
+            }
+            5 if sub_from < self.nsubs => {
+                let n = self.rng.range(1, 3) as usize;
+                let t = (0..n)
+                    .map(|_| self.sub_labels[sub_from + self.rng.usize(self.nsubs - sub_from)])
+                    .collect();
+                v.push(St::On(self.sel(), true, t));
+                if self.rng.coin() {
+                    v.push(self.simple());
+                }
+            }
+            6 if self.o.data => {
+                let n = self.rng.range(1, 3) as usize;
+                v.push(St::Read((0..n).map(|_| self.var()).collect()));
+            }
+            _ => {}
+        }
+        v
+    }
+
+    fn sel(&mut self) -> E {
+        if self.rng.chance(1, 12) {
+            return E::N(self.rng.range(-1, 0));
+        }
+        E::Bin(Box::new(E::V(self.var())), "MOD", Box::new(E::N(self.rng.range(2, 5))))
+    }
+
+    fn arm(&mut self, fwd: &[usize], in_sub: bool, sub_from: usize) -> Vec<St> {
+        let mut v = vec![];
+        match self.rng.usize(8) {
+            0 if !fwd.is_empty() => v.push(St::Goto(*self.rng.pick(fwd))),
+            1 if in_sub => {
+                v.push(self.simple());
+                v.push(St::Return)
+            }
+            2 if sub_from < self.nsubs => {
+                let k = sub_from + self.rng.usize(self.nsubs - sub_from);
+                v.push(St::Gosub(self.sub_labels[k]));
+                v.push(self.simple());
+            }
+            3 if self.o.stop && !in_sub && self.rng.chance(1, 4) => {
+                v.push(self.simple());
+                v.push(if self.rng.coin() { St::End } else { St::Stop });
+            }
+            4 => {
+                // nested IF: ELSE binds to the innermost
+                let t = vec![self.simple()];
+                let e = if self.rng.coin() { Some(vec![self.simple()]) } else { None };
+                v.push(St::If(self.cond(&[]), t, e));
+            }
+            _ => {
+                v.push(self.simple());
+                if self.rng.coin() {
+                    v.push(self.simple());
+                }
+            }
+        }
+        v
+    }
+
+    /// A block of lines. `exits`: labels after enclosing constructs that may be jumped to.
+    fn block(&mut self, out: &mut Vec<Line>, depth: usize, n_items: usize, exits: &[usize], in_sub: bool, sub_from: usize) {
+        // labels of the items of this block are allocated first so that forward jumps can name them
+        let labels: Vec<usize> = (0..n_items + 1).map(|_| self.label()).collect();
+        let mut done_items = 0;
+        for i in 0..n_items {
+            if self.budget <= 0 {
+                break;
+            }
+            done_items = i + 1;
+            self.budget -= 1;
+            let mut fwd: Vec<usize> = labels[i + 1..].to_vec();
+            fwd.extend_from_slice(exits);
+            let kind = self.rng.usize(10);
+            if kind == 0 && depth > 0 && self.loopv < LOOPV.len() {
+                let v = LOOPV[self.loopv].to_string();
+                self.loopv += 1;
+                let (a, b, s) = match self.rng.usize(4) {
+                    0 => (E::N(self.rng.range(0, 3)), E::N(self.rng.range(0, 5)), None),
+                    1 => (E::N(self.rng.range(3, 6)), E::N(self.rng.range(0, 3)), Some(E::N(-self.rng.range(1, 2)))),
+                    2 => (
+                        E::Bin(Box::new(E::V(self.var())), "MOD", Box::new(E::N(3))),
+                        E::N(self.rng.range(1, 4)),
+                        Some(E::N(self.rng.range(1, 3))),
+                    ),
+                    _ => (E::N(1), E::Bin(Box::new(E::V(self.var())), "MOD", Box::new(E::N(4))), None),
+                };
+                let mut sts = vec![St::For(v.clone(), a, b, s)];
+                if self.rng.chance(1, 3) {
+                    sts.push(self.simple());
+                }
+                out.push(Line { label: labels[i], sts });
+                let after = labels[i + 1];
+                let mut ex = vec![after];
+                ex.extend_from_slice(exits);
+                let n = self.rng.range(1, 3) as usize;
+                self.block(out, depth - 1, n, &ex, in_sub, sub_from);
+                let l = self.label();
+                let nx = match self.rng.usize(3) {
+                    0 => vec![],
+                    _ => vec![v],
+                };
+                let mut sts = vec![St::Next(nx)];
+                if self.rng.chance(1, 4) {
+                    sts.push(self.simple());
+                }
+                out.push(Line { label: l, sts });
+            } else if kind == 1 && depth > 0 && self.whilev < WHILEV.len() {
+                let w = WHILEV[self.whilev].to_string();
+                self.whilev += 1;
+                let lim = self.rng.range(0, 3);
+                out.push(Line {
+                    label: labels[i],
+                    sts: vec![
+                        St::Let(w.clone(), E::N(0), false),
+                        St::While(E::Bin(Box::new(E::V(w.clone())), "<", Box::new(E::N(lim)))),
+                    ],
+                });
+                let after = labels[i + 1];
+                let mut ex = vec![after];
+                ex.extend_from_slice(exits);
+                let n = self.rng.range(1, 3) as usize;
+                // the counter is advanced first so that no jump can skip the increment
+                let l0 = self.label();
+                out.push(Line {
+                    label: l0,
+                    sts: vec![St::Let(w.clone(), E::Bin(Box::new(E::V(w.clone())), "+", Box::new(E::N(1))), false)],
+                });
+                // jumps inside the body stay inside the body or leave the loop
+                self.block(out, depth - 1, n, &ex[..1], in_sub, sub_from);
+                let l = self.label();
+                out.push(Line { label: l, sts: vec![St::Wend] });
+            } else if kind == 2 && self.o.data {
+                let n = self.rng.range(1, 4);
+                out.push(Line {
+                    label: labels[i],
+                    sts: vec![St::Data((0..n).map(|_| self.rng.range(-9, 99)).collect())],
+                });
+            } else if kind == 3 && self.o.data {
+                let l = if self.rng.coin() { None } else { Some(usize::MAX) };
+                out.push(Line { label: labels[i], sts: vec![St::Restore(l), self.simple()] });
+            } else if kind == 4 && self.rng.chance(1, 3) {
+                out.push(Line { label: labels[i], sts: vec![St::Rem("note: GOTO 10".into(), self.rng.coin())] });
+            } else {
+                let sts = self.line_sts(&fwd, in_sub, sub_from);
+                out.push(Line { label: labels[i], sts });
+            }
+        }
+        // the block's end marker (target of jumps past the last item)
+        for l in &labels[done_items..] {
+            out.push(Line { label: *l, sts: vec![St::Rem(String::new(), false)] });
+        }
+    }
+}
+
+pub fn generate(rng: &mut Rng, o: Opts) -> Prog {
+    let nsubs = rng.usize(4);
+    let mut g = G {
+        rng,
+        o,
+        next_label: 0,
+        loopv: 0,
+        whilev: 0,
+        nsubs,
+        sub_labels: vec![],
+        nfn: 0,
+        fn_arity: vec![],
+        budget: o.max_lines as i64 / 2,
+    };
+    for _ in 0..nsubs {
+        let l = g.label();
+        g.sub_labels.push(l);
+    }
+    let mut lines: Vec<Line> = vec![];
+    if o.tron {
+        let l = g.label();
+        lines.push(Line { label: l, sts: vec![St::Tron] });
+    }
+    if o.func {
+        let nf = g.rng.range(1, 3) as usize;
+        for k in 0..nf {
+            let ar = g.rng.range(1, 3) as usize;
+            let ps: Vec<String> = PARAMS[..ar].iter().map(|s| s.to_string()).collect();
+            // a function may call the ones defined before it
+            g.nfn = k;
+            let body = g.expr(3, &ps);
+            g.fn_arity.push(ar);
+            let l = g.label();
+            lines.push(Line { label: l, sts: vec![St::Def(k, ps, body)] });
+        }
+        g.nfn = nf;
+    }
+    let n = g.rng.range(2, 7) as usize;
+    g.block(&mut lines, 2, n, &[], false, 0);
+    let l = g.label();
+    lines.push(Line { label: l, sts: vec![g.print(), St::End] });
+    for k in 0..nsubs {
+        let lbl = g.sub_labels[k];
+        lines.push(Line { label: lbl, sts: vec![g.simple()] });
+        let n = g.rng.range(1, 3) as usize;
+        g.budget = g.budget.max(3);
+        g.block(&mut lines, 1, n, &[], true, k + 1);
+        let l = g.label();
+        lines.push(Line { label: l, sts: vec![St::Return] });
+    }
+    let mut p = Prog { lines, nums: BTreeMap::new() };
+    let start = g.rng.range(1, 30) as u16;
+    let step = *g.rng.pick(&[1u16, 2, 5, 10, 10, 10, 17, 100]);
+    p.number(start, step);
+    // RESTORE n: pick real lines now that labels exist
+    let labels: Vec<usize> = p.lines.iter().map(|l| l.label).collect();
+    for line in p.lines.iter_mut() {
+        for st in line.sts.iter_mut() {
+            if let St::Restore(Some(l)) = st {
+                if *l == usize::MAX {
+                    *l = labels[g.rng.usize(labels.len())];
+                }
+            }
+        }
+    }
+    p
+}
+
+impl Prog {
+    pub fn number(&mut self, start: u16, step: u16) {
+        self.nums.clear();
+        let mut n = start;
+        for l in &self.lines {
+            self.nums.insert(l.label, n);
+            n += step;
+        }
+    }
+
+    pub fn num(&self, label: usize) -> u16 {
+        *self.nums.get(&label).unwrap_or(&0)
+    }
+}
+
+// ------------------------------------------------------------------------------------------
+// Rendering
+
+#[derive(Clone, Copy, Default)]
+pub struct Spell {
+    /// 0 = canonical; otherwise a seed for random spelling choices
+    pub seed: u64,
+}
+
+pub struct Render<'a> {
+    pub p: &'a Prog,
+    rng: Option<Rng>,
+}
+
+impl<'a> Render<'a> {
+    pub fn new(p: &'a Prog, spell: Spell) -> Render<'a> {
+        Render { p, rng: if spell.seed == 0 { None } else { Some(Rng::new(spell.seed)) } }
+    }
+
+    fn ch(&mut self, n: u64) -> u64 {
+        match self.rng.as_mut() {
+            Some(r) => r.below(n),
+            None => 0,
+        }
+    }
+
+    /// keyword / identifier in random case
+    fn w(&mut self, s: &str) -> String {
+        match self.ch(3) {
+            0 => s.to_string(),
+            1 => s.to_lowercase(),
+            _ => {
+                let mut o = String::new();
+                for c in s.chars() {
+                    if self.ch(2) == 0 {
+                        o.push(c.to_ascii_lowercase())
+                    } else {
+                        o.push(c)
+                    }
+                }
+                o
+            }
+        }
+    }
+
+    /// optional blank(s)
+    fn sp(&mut self) -> &'static str {
+        match self.ch(4) {
+            0 => " ",
+            1 => "",
+            2 => "  ",
+            _ => " ",
+        }
+    }
+
+    /// blank that may be dropped only when spelling variants are on
+    fn osp(&mut self) -> &'static str {
+        if self.rng.is_none() {
+            return " ";
+        }
+        self.sp()
+    }
+
+    pub fn expr(&mut self, e: &E, parent: u8) -> String {
+        match e {
+            E::N(n) => {
+                if *n < 0 {
+                    format!("({})", n)
+                } else {
+                    n.to_string()
+                }
+            }
+            E::V(v) => self.w(v),
+            E::Neg(x) => {
+                let s = format!("-{}", self.expr(x, 12));
+                if parent > 0 {
+                    format!("({})", s)
+                } else {
+                    s
+                }
+            }
+            E::Fn(k, args) => {
+                let mut s = self.w(FNS[*k]);
+                if !args.is_empty() {
+                    s.push('(');
+                    for (i, a) in args.iter().enumerate() {
+                        if i > 0 {
+                            s.push(',');
+                        }
+                        s.push_str(&self.expr(a, 0));
+                    }
+                    s.push(')');
+                }
+                s
+            }
+            E::Bin(l, op, r) => {
+                let lvl = level(op);
+                let ls = self.expr(l, lvl);
+                let rs = self.expr(r, lvl + 1);
+                let ops: String = match *op {
+                    "MOD" => format!(" {} ", self.w("MOD")),
+                    "<=" => match self.ch(4) {
+                        1 => "=<".into(),
+                        2 => "< =".into(),
+                        _ => "<=".into(),
+                    },
+                    ">=" => match self.ch(4) {
+                        1 => "=>".into(),
+                        2 => "> =".into(),
+                        _ => ">=".into(),
+                    },
+                    "<>" => match self.ch(4) {
+                        2 => "< >".into(),
+                        _ => "<>".into(),
+                    },
+                    o => o.to_string(),
+                };
+                let s = if *op == "MOD" { format!("{}{}{}", ls, ops, rs) } else {
+                    let a = if self.rng.is_some() { self.sp() } else { "" };
+                    let b = if self.rng.is_some() { self.sp() } else { "" };
+                    format!("{}{}{}{}{}", ls, a, ops, b, rs)
+                };
+                if lvl < parent {
+                    format!("({})", s)
+                } else {
+                    s
+                }
+            }
+        }
+    }
+
+    fn sts(&mut self, v: &[St]) -> String {
+        let mut parts = vec![];
+        for s in v {
+            parts.push(self.st(s));
+        }
+        let sep = if self.rng.is_some() && self.ch(2) == 0 { " : " } else { ":" };
+        parts.join(sep)
+    }
+
+    pub fn st(&mut self, s: &St) -> String {
+        match s {
+            St::Print(items, semi) => {
+                let mut o = if self.ch(3) == 1 { "?".to_string() } else { self.w("PRINT") };
+                let mut first = true;
+                for it in items {
+                    if first {
+                        o.push_str(self.osp());
+                    } else {
+                        o.push(';');
+                    }
+                    first = false;
+                    match it {
+                        Item::S(t) => o.push_str(&format!("\"{}\"", t)),
+                        Item::E(e) => o.push_str(&self.expr(e, 0)),
+                    }
+                }
+                if *semi {
+                    o.push(';');
+                }
+                o
+            }
+            St::Let(v, e, lt) => {
+                let es = self.expr(e, 0);
+                let vs = self.w(v);
+                if *lt {
+                    format!("{} {}={}", self.w("LET"), vs, es)
+                } else {
+                    format!("{}={}", vs, es)
+                }
+            }
+            St::Goto(l) => {
+                let n = self.p.num(*l);
+                if self.ch(3) == 1 {
+                    format!("{} {} {}", self.w("GO"), self.w("TO"), n)
+                } else {
+                    format!("{}{}{}", self.w("GOTO"), self.osp(), n)
+                }
+            }
+            St::Gosub(l) => {
+                let n = self.p.num(*l);
+                if self.ch(3) == 1 {
+                    format!("{} {} {}", self.w("GO"), self.w("SUB"), n)
+                } else {
+                    format!("{}{}{}", self.w("GOSUB"), self.osp(), n)
+                }
+            }
+            St::Return => self.w("RETURN"),
+            St::On(e, sub, ls) => {
+                let nums: Vec<String> = ls.iter().map(|l| self.p.num(*l).to_string()).collect();
+                let es = self.expr(e, 0);
+                format!(
+                    "{} {} {} {}",
+                    self.w("ON"),
+                    es,
+                    if *sub { self.w("GOSUB") } else { self.w("GOTO") },
+                    nums.join(",")
+                )
+            }
+            St::If(c, t, e) => {
+                let cs = self.expr(c, 0);
+                let mut o = format!("{} {} {} {}", self.w("IF"), cs, self.w("THEN"), self.arm(t));
+                if let Some(e) = e {
+                    o.push_str(&format!(" {} {}", self.w("ELSE"), self.arm(e)));
+                }
+                o
+            }
+            St::For(v, a, b, s) => {
+                let (a, b) = (self.expr(a, 0), self.expr(b, 0));
+                let mut o = format!("{} {}={} {} {}", self.w("FOR"), self.w(v), a, self.w("TO"), b);
+                if let Some(s) = s {
+                    let ss = self.expr(s, 0);
+                    o.push_str(&format!(" {} {}", self.w("STEP"), ss));
+                }
+                o
+            }
+            St::Next(vs) => {
+                if vs.is_empty() {
+                    self.w("NEXT")
+                } else {
+                    let names: Vec<String> = vs.iter().map(|v| self.w(v)).collect();
+                    format!("{} {}", self.w("NEXT"), names.join(","))
+                }
+            }
+            St::While(c) => {
+                let cs = self.expr(c, 0);
+                format!("{} {}", self.w("WHILE"), cs)
+            }
+            St::Wend => self.w("WEND"),
+            St::End => self.w("END"),
+            St::Stop => self.w("STOP"),
+            St::Rem(t, tick) => {
+                if *tick {
+                    format!("'{}", t)
+                } else if t.is_empty() {
+                    self.w("REM")
+                } else {
+                    format!("{} {}", self.w("REM"), t)
+                }
+            }
+            St::Read(vs) => {
+                let names: Vec<String> = vs.iter().map(|v| self.w(v)).collect();
+                format!("{} {}", self.w("READ"), names.join(","))
+            }
+            St::Data(ns) => {
+                let v: Vec<String> = ns.iter().map(|n| n.to_string()).collect();
+                format!("{} {}", self.w("DATA"), v.join(","))
+            }
+            St::Restore(l) => match l {
+                Some(l) => format!("{} {}", self.w("RESTORE"), self.p.num(*l)),
+                None => self.w("RESTORE"),
+            },
+            St::Def(k, ps, body) => {
+                let b = self.expr(body, 0);
+                let mut o = format!("{} {}", self.w("DEF"), self.w(FNS[*k]));
+                if !ps.is_empty() {
+                    o.push_str(&format!("({})", ps.join(",")));
+                }
+                o.push('=');
+                o.push_str(&b);
+                o
+            }
+            St::Tron => self.w("TRON"),
+            St::Troff => self.w("TROFF"),
+        }
+    }
+
+    fn arm(&mut self, v: &[St]) -> String {
+        // THEN n shorthand for a lone GOTO
+        if v.len() == 1 {
+            if let St::Goto(l) = &v[0] {
+                // `THEN n` for `THEN GOTO n` runs the same but (rightly) lists as typed; not used
+                if false {
+                    return self.p.num(*l).to_string();
+                }
+            }
+        }
+        self.sts(v)
+    }
+
+    pub fn line(&mut self, l: &Line) -> String {
+        let body = self.sts(&l.sts);
+        // more than one blank after the number is indentation, which listings keep
+        let gap = if self.rng.is_some() && self.ch(2) == 1 { "" } else { " " };
+        format!("{}{}{}", self.p.num(l.label), gap, body)
+    }
+
+    pub fn lines(&mut self) -> Vec<String> {
+        let p = self.p;
+        p.lines.iter().map(|l| self.line(l)).collect()
+    }
+}
+
+fn level(op: &str) -> u8 {
+    match op {
+        "*" => 11,
+        "MOD" => 9,
+        "+" | "-" => 8,
+        "AND" => 5,
+        "OR" => 4,
+        _ => 7,
+    }
+}
+
+pub fn render(p: &Prog) -> Vec<String> {
+    Render::new(p, Spell::default()).lines()
+}
+
+pub fn render_spelled(p: &Prog, seed: u64) -> Vec<String> {
+    Render::new(p, Spell { seed: seed | 1 }).lines()
+}
+
+// ------------------------------------------------------------------------------------------
+// Reference interpreter
+
+#[derive(Clone, Debug, PartialEq)]
+pub enum End {
+    Normal,
+    Break(u16),
+    Error(&'static str, u16),
+    /// the model does not specify this run (value left the exact range, step budget, ...)
+    Unspec(&'static str),
+}
+
+#[derive(Clone, Debug)]
+pub struct ModelRun {
+    pub out: String,
+    pub end: End,
+    pub steps: u64,
+    pub kinds: Vec<&'static str>,
+    pub vars: BTreeMap<String, i64>,
+    pub max_depth: usize,
+}
+
+enum Frame {
+    For { var: String, to: i64, step: i64, resume: Pos },
+    Gosub { resume: Pos },
+}
+
+/// Position: line index, then a path of (statement index, arm) into nested IFs.
+#[derive(Clone, Debug, PartialEq)]
+struct Pos {
+    line: usize,
+    path: Vec<(usize, u8)>,
+    idx: usize,
+}
+
+const LIM: i64 = 16000;
+
+struct M<'a> {
+    p: &'a Prog,
+    vars: BTreeMap<String, i64>,
+    out: String,
+    col: usize,
+    stack: Vec<Frame>,
+    data: Vec<(usize, i64)>,
+    dpos: usize,
+    fns: BTreeMap<usize, (Vec<String>, E)>,
+    tron: bool,
+    traced: Option<usize>,
+    whiles: Vec<(Pos, Pos)>,
+    kinds: std::collections::BTreeSet<&'static str>,
+    max_depth: usize,
+}
+
+enum Flow {
+    Next,
+    Jump(Pos),
+    Finish(End),
+}
+
+type R<T> = Result<T, End>;
+
+impl<'a> M<'a> {
+    fn line_of(&self, label: usize) -> Option<usize> {
+        self.p.lines.iter().position(|l| l.label == label)
+    }
+
+    fn eval(&self, e: &E, env: &BTreeMap<String, i64>, depth: usize, ln: u16) -> R<i64> {
+        if depth > 40 {
+            return Err(End::Unspec("fn depth"));
+        }
+        let v = match e {
+            E::N(n) => *n,
+            E::V(v) => match env.get(v) {
+                Some(x) => *x,
+                None => *self.vars.get(v).unwrap_or(&0),
+            },
+            E::Neg(x) => {
+                let v = self.eval(x, env, depth, ln)?;
+                if v == 0 {
+                    // -0 of a Single: how it prints is not this model's business
+                    return Err(End::Unspec("negative zero"));
+                }
+                -v
+            }
+            E::Fn(k, args) => {
+                let (ps, body) = match self.fns.get(k) {
+                    Some(f) => f.clone(),
+                    None => return Err(End::Error("UNDEFINED USER FUNCTION", ln)),
+                };
+                let mut vals = vec![];
+                for a in args {
+                    vals.push(self.eval(a, env, depth, ln)?);
+                }
+                if vals.len() != ps.len() {
+                    return Err(End::Error("ILLEGAL FUNCTION CALL", ln));
+                }
+                let mut inner = BTreeMap::new();
+                for (p, v) in ps.iter().zip(vals) {
+                    inner.insert(p.clone(), v);
+                }
+                self.eval(&body, &inner, depth + 1, ln)?
+            }
+            E::Bin(l, op, r) => {
+                let a = self.eval(l, env, depth, ln)?;
+                let b = self.eval(r, env, depth, ln)?;
+                match *op {
+                    "+" => a + b,
+                    "-" => a - b,
+                    "*" => {
+                        if a * b == 0 && (a < 0 || b < 0) {
+                            return Err(End::Unspec("negative zero"));
+                        }
+                        a * b
+                    }
+                    "MOD" => {
+                        if b == 0 {
+                            return Err(End::Error("DIVISION BY ZERO", ln));
+                        }
+                        a % b
+                    }
+                    "<" => -((a < b) as i64),
+                    "=" => -((a == b) as i64),
+                    "<>" => -((a != b) as i64),
+                    ">" => -((a > b) as i64),
+                    "<=" => -((a <= b) as i64),
+                    ">=" => -((a >= b) as i64),
+                    _ => return Err(End::Unspec("op")),
+                }
+            }
+        };
+        if v.abs() > LIM {
+            return Err(End::Unspec("magnitude"));
+        }
+        Ok(v)
+    }
+
+    fn emit(&mut self, s: &str) {
+        for c in s.chars() {
+            if c == '\n' {
+                self.col = 0
+            } else {
+                self.col += 1
+            }
+        }
+        self.out.push_str(s);
+    }
+
+    fn sts_at<'b>(&'b self, pos: &Pos) -> &'b [St] {
+        let mut v: &[St] = &self.p.lines[pos.line].sts;
+        for (i, arm) in &pos.path {
+            if let St::If(_, t, e) = &v[*i] {
+                v = if *arm == 0 { t } else { e.as_ref().map(|x| x.as_slice()).unwrap_or(&[]) };
+            }
+        }
+        v
+    }
+
+    /// All WHILE/WEND positions in source order, paired like brackets.
+    fn pair_whiles(&mut self) {
+        fn walk(v: &[St], line: usize, path: &mut Vec<(usize, u8)>, acc: &mut Vec<(bool, Pos)>) {
+            for (i, s) in v.iter().enumerate() {
+                match s {
+                    St::While(_) => acc.push((true, Pos { line, path: path.clone(), idx: i })),
+                    St::Wend => acc.push((false, Pos { line, path: path.clone(), idx: i })),
+                    St::If(_, t, e) => {
+                        path.push((i, 0));
+                        walk(t, line, path, acc);
+                        path.pop();
+                        if let Some(e) = e {
+                            path.push((i, 1));
+                            walk(e, line, path, acc);
+                            path.pop();
+                        }
+                    }
+                    _ => {}
+                }
+            }
+        }
+        let mut acc = vec![];
+        for (li, l) in self.p.lines.iter().enumerate() {
+            walk(&l.sts, li, &mut vec![], &mut acc);
+        }
+        let mut open: Vec<Pos> = vec![];
+        for (is_while, pos) in acc {
+            if is_while {
+                open.push(pos)
+            } else if let Some(w) = open.pop() {
+                self.whiles.push((w, pos));
+            }
+        }
+    }
+
+    fn after(&self, pos: &Pos) -> Pos {
+        Pos { line: pos.line, path: pos.path.clone(), idx: pos.idx + 1 }
+    }
+
+    fn start_of(&self, line: usize) -> Pos {
+        Pos { line, path: vec![], idx: 0 }
+    }
+
+    fn jump(&self, label: usize, ln: u16) -> R<Pos> {
+        match self.line_of(label) {
+            Some(l) => Ok(self.start_of(l)),
+            None => Err(End::Error("UNDEFINED LINE", ln)),
+        }
+    }
+
+    fn numstr(n: i64) -> String {
+        if n < 0 {
+            format!("-{} ", -n)
+        } else {
+            format!(" {} ", n)
+        }
+    }
+
+    fn exec(&mut self, pos: &Pos, st: &St) -> R<Flow> {
+        let ln = self.p.num(self.p.lines[pos.line].label);
+        let none = BTreeMap::new();
+        let makes_code = !matches!(st, St::Rem(..) | St::Data(..));
+        if self.tron && makes_code && self.traced != Some(pos.line) {
+            self.traced = Some(pos.line);
+            self.emit(&format!("[{}]", ln));
+        }
+        match st {
+            St::Print(items, semi) => {
+                self.kinds.insert("PRINT");
+                for it in items {
+                    match it {
+                        Item::S(s) => self.emit(&s.clone()),
+                        Item::E(e) => {
+                            let v = self.eval(e, &none, 0, ln)?;
+                            self.emit(&Self::numstr(v));
+                        }
+                    }
+                }
+                if !*semi {
+                    self.emit("\n");
+                }
+            }
+            St::Let(v, e, _) => {
+                self.kinds.insert("LET");
+                let x = self.eval(e, &none, 0, ln)?;
+                self.vars.insert(v.clone(), x);
+            }
+            St::Goto(l) => {
+                self.kinds.insert("GOTO");
+                return Ok(Flow::Jump(self.jump(*l, ln)?));
+            }
+            St::Gosub(l) => {
+                self.kinds.insert("GOSUB");
+                let t = self.jump(*l, ln)?;
+                self.stack.push(Frame::Gosub { resume: self.after(pos) });
+                return Ok(Flow::Jump(t));
+            }
+            St::Return => {
+                self.kinds.insert("RETURN");
+                loop {
+                    match self.stack.pop() {
+                        None => return Err(End::Error("RETURN WITHOUT GOSUB", ln)),
+                        Some(Frame::Gosub { resume }) => return Ok(Flow::Jump(resume)),
+                        Some(Frame::For { .. }) => {
+                            self.kinds.insert("RETURN-discards-FOR");
+                        }
+                    }
+                }
+            }
+            St::On(e, sub, ls) => {
+                let k = self.eval(e, &none, 0, ln)?;
+                if k < 0 {
+                    return Err(End::Error("ILLEGAL FUNCTION CALL", ln));
+                }
+                if k >= 1 && (k as usize) <= ls.len() {
+                    let t = self.jump(ls[k as usize - 1], ln)?;
+                    if *sub {
+                        self.kinds.insert("ON-GOSUB-taken");
+                        self.stack.push(Frame::Gosub { resume: self.after(pos) });
+                    } else {
+                        self.kinds.insert("ON-GOTO-taken");
+                    }
+                    return Ok(Flow::Jump(t));
+                }
+                self.kinds.insert(if *sub { "ON-GOSUB-out-of-range" } else { "ON-GOTO-out-of-range" });
+            }
+            St::If(c, _t, e) => {
+                let v = self.eval(c, &none, 0, ln)?;
+                let mut path = pos.path.clone();
+                if v != 0 {
+                    self.kinds.insert("IF-then");
+                    path.push((pos.idx, 0));
+                    return Ok(Flow::Jump(Pos { line: pos.line, path, idx: 0 }));
+                } else if e.is_some() {
+                    self.kinds.insert("IF-else");
+                    path.push((pos.idx, 1));
+                    return Ok(Flow::Jump(Pos { line: pos.line, path, idx: 0 }));
+                } else {
+                    self.kinds.insert("IF-false");
+                    // rest of the line is skipped
+                    return Ok(Flow::Jump(Pos { line: pos.line + 1, path: vec![], idx: 0 }));
+                }
+            }
+            St::For(v, a, b, s) => {
+                self.kinds.insert("FOR");
+                let x = self.eval(a, &none, 0, ln)?;
+                self.vars.insert(v.clone(), x);
+                let to = self.eval(b, &none, 0, ln)?;
+                let step = match s {
+                    Some(s) => self.eval(s, &none, 0, ln)?,
+                    None => 1,
+                };
+                self.stack.push(Frame::For { var: v.clone(), to, step, resume: self.after(pos) });
+            }
+            St::Next(names) => {
+                let list: Vec<Option<String>> =
+                    if names.is_empty() { vec![None] } else { names.iter().map(|n| Some(n.clone())).collect() };
+                for want in list {
+                    loop {
+                        match self.stack.pop() {
+                            None | Some(Frame::Gosub { .. }) => return Err(End::Error("NEXT WITHOUT FOR", ln)),
+                            Some(Frame::For { var, to, step, resume }) => {
+                                if let Some(w) = &want {
+                                    if *w != var {
+                                        self.kinds.insert("NEXT-discards-inner-frame");
+                                        continue;
+                                    }
+                                }
+                                let x = self.vars.get(&var).copied().unwrap_or(0) + step;
+                                if x.abs() > LIM {
+                                    return Err(End::Unspec("magnitude"));
+                                }
+                                self.vars.insert(var.clone(), x);
+                                let done = if step < 0 { x < to } else { x > to };
+                                if done {
+                                    self.kinds.insert("NEXT-exit");
+                                    break;
+                                }
+                                self.kinds.insert("NEXT-loop");
+                                let r = resume.clone();
+                                self.stack.push(Frame::For { var, to, step, resume });
+                                return Ok(Flow::Jump(r));
+                            }
+                        }
+                    }
+                }
+            }
+            St::While(c) => {
+                let v = self.eval(c, &none, 0, ln)?;
+                if v == 0 {
+                    self.kinds.insert("WHILE-exit");
+                    for (w, e) in &self.whiles {
+                        if w == pos {
+                            return Ok(Flow::Jump(self.after(e)));
+                        }
+                    }
+                    return Err(End::Unspec("unpaired while"));
+                }
+                self.kinds.insert("WHILE-enter");
+            }
+            St::Wend => {
+                self.kinds.insert("WEND");
+                for (w, e) in &self.whiles {
+                    if e == pos {
+                        return Ok(Flow::Jump(w.clone()));
+                    }
+                }
+                return Err(End::Unspec("unpaired wend"));
+            }
+            St::End => {
+                self.kinds.insert("END");
+                return Ok(Flow::Finish(End::Normal));
+            }
+            St::Stop => {
+                self.kinds.insert("STOP");
+                return Ok(Flow::Finish(End::Break(ln)));
+            }
+            St::Rem(..) => {
+                // the rest of the line is remark text
+                return Ok(Flow::Jump(self.start_of(pos.line + 1)));
+            }
+            St::Data(_) => {}
+            St::Read(vs) => {
+                self.kinds.insert("READ");
+                for v in vs {
+                    if self.dpos >= self.data.len() {
+                        return Err(End::Error("OUT OF DATA", ln));
+                    }
+                    let x = self.data[self.dpos].1;
+                    self.dpos += 1;
+                    self.vars.insert(v.clone(), x);
+                }
+            }
+            St::Restore(l) => match l {
+                None => {
+                    self.kinds.insert("RESTORE");
+                    self.dpos = 0
+                }
+                Some(l) => {
+                    self.kinds.insert("RESTORE-n");
+                    let li = match self.line_of(*l) {
+                        Some(x) => x,
+                        None => return Err(End::Error("UNDEFINED LINE", ln)),
+                    };
+                    self.dpos = self.data.iter().position(|(dl, _)| *dl >= li).unwrap_or(self.data.len());
+                }
+            },
+            St::Def(k, ps, body) => {
+                self.kinds.insert("DEF");
+                self.fns.insert(*k, (ps.clone(), body.clone()));
+            }
+            St::Tron => {
+                self.tron = true;
+                self.traced = Some(pos.line);
+            }
+            St::Troff => self.tron = false,
+        }
+        Ok(Flow::Next)
+    }
+}
+
+pub fn model_run(p: &Prog, max_steps: u64) -> ModelRun {
+    let mut m = M {
+        p,
+        vars: BTreeMap::new(),
+        out: String::new(),
+        col: 0,
+        stack: vec![],
+        data: vec![],
+        dpos: 0,
+        fns: BTreeMap::new(),
+        tron: false,
+        traced: None,
+        whiles: vec![],
+        kinds: Default::default(),
+        max_depth: 0,
+    };
+    for (li, l) in p.lines.iter().enumerate() {
+        for s in &l.sts {
+            if let St::Data(ns) = s {
+                for n in ns {
+                    m.data.push((li, *n));
+                }
+            }
+        }
+    }
+    m.pair_whiles();
+    let mut pos = Pos { line: 0, path: vec![], idx: 0 };
+    let mut steps = 0u64;
+    let end = loop {
+        if pos.line >= p.lines.len() {
+            break End::Normal;
+        }
+        let sts = m.sts_at(&pos);
+        if pos.idx >= sts.len() {
+            // end of a statement list: both IF arms run to the end of the line
+            pos = m.start_of(pos.line + 1);
+            continue;
+        }
+        steps += 1;
+        if steps > max_steps {
+            break End::Unspec("steps");
+        }
+        let st = sts[pos.idx].clone();
+        m.max_depth = m.max_depth.max(m.stack.len());
+        match m.exec(&pos, &st) {
+            Ok(Flow::Next) => pos = m.after(&pos),
+            Ok(Flow::Jump(t)) => pos = t,
+            Ok(Flow::Finish(e)) => break e,
+            Err(e) => break e,
+        }
+    };
+    // terminating condition as the terminal shows it
+    match &end {
+        End::Normal => {
+            if m.col != 0 {
+                m.emit("\n");
+            }
+        }
+        End::Break(l) => {
+            if m.col != 0 {
+                m.emit("\n");
+            }
+            m.emit(&format!("?BREAK IN {}\n", l));
+        }
+        End::Error(name, l) => {
+            if m.col != 0 {
+                m.emit("\n");
+            }
+            m.emit(&format!("?{} IN {}\n", name, l));
+        }
+        End::Unspec(_) => {}
+    }
+    m.emit("READY.\n<STOPPED>");
+    ModelRun {
+        out: m.out,
+        end,
+        steps,
+        kinds: m.kinds.into_iter().collect(),
+        vars: m.vars,
+        max_depth: m.max_depth,
+    }
+}
